@@ -41,6 +41,7 @@ type WorldJSON struct {
 		Skew       int      `json:"skew"`      // client clock skew, seconds
 		AT         string   `json:"at"`
 		Assert     bool     `json:"assert"`
+		Aud        []string `json:"aud"`    // resource servers the client's tokens are meant for (empty: the client itself)
 		HasKey     bool     `json:"hasKey"` // the storage holds a public key for the client (whatever its auth method)
 		Method     string   `json:"method"` // "unset": the registration names no auth method (empty string = client_secret_basic by default)
 	} `json:"clients"`
@@ -118,7 +119,7 @@ func BuildRegs(w *WorldJSON) []*modelstore.ClientReg {
 	for _, id := range ids {
 		c := w.Clients[id]
 		r := &modelstore.ClientReg{ID: id, Auth: c.Auth, App: c.App, Grants: c.Grants, RTypes: c.RTypes,
-			ATType: c.AT, IDTLifetime: time.Hour, ExtraScopes: []string{"api"}, Assertion: c.Assert, MethodUnset: c.Method == "unset" && c.Auth == "basic"}
+			ATType: c.AT, IDTLifetime: time.Hour, ExtraScopes: []string{"api"}, Assertion: c.Assert, MethodUnset: c.Method == "unset" && c.Auth == "basic", Audience: c.Aud}
 		if c.Auth == "basic" || c.Auth == "post" {
 			r.Secret = Secret(id)
 		}
